@@ -24,7 +24,7 @@ HERE = os.path.dirname(os.path.abspath(__file__))
 CASES = {'quick': 4000, 'thorough': 120000}
 PARALLEL = True
 PROOF_TIMEOUT = 1500
-DEPENDS = ['C02']          # Model/C07.v imports Model/C02.v and Gen/Facts_C02.v: the engine regenerates those facts
+DEPENDS = ['C02', 'C17']   # Model/C07.v imports Model/C02.v; Proofs/C07_c17.v refers to Model/C17.v: their facts are regenerated
 ALLOWED_AXIOMS = ()
 RULE = ('random trees (depth<=4, fan-out<=4; names: ASCII, reserved URL characters, spaces, percent signs, colons, '
         'multi-byte text, names that extend a sibling\'s name; a small inadmissible stream: \'\', \'.\', \'..\', \'a/b\', '
@@ -42,7 +42,9 @@ ASSUMPTIONS = [
     'starting with \'@@\') Unicode scalar values (no lone surrogates) and that are reached by item lookup along their '
     'own names (location consistency)',
     'elements, names and headers are str; query/anchor/route_name/__resource_url__ of resource_url belong to C17',
-    'request.application_url (webob) is taken from the implementation as an oracle input of the model',
+    'request.host_url (webob; scheme://host[:port], C17\'s subject) and the ValueError step of urllib.parse.urlsplit for '
+    'bracketed hosts are taken from the implementation as oracle inputs of the model; webob\'s application_url and its '
+    'PATH_SAFE constant are modelled',
     'the request handed to virtual_root() has no `root` attribute (find_root is the fallback)',
     'a WSGI server hands PATH_INFO over as the percent-decoded path in latin-1 (urllib.parse.unquote_to_bytes)',
 ]
@@ -53,7 +55,7 @@ TRUSTED = [
     'coq/Model/C02.v (trees, ResourceTreeTraverser.__call__, _join_path_tuple, quote_path_segment, webob unquote) and its '
     'regenerated facts; Lib/PathNorm, Lib/Utf8 (CPython strict UTF-8), Lib/Percent (urllib quote/unquote_to_bytes)',
     'webob Request.blank/environ_from_url/application_url and urllib.parse.urlsplit: modelled or taken as oracle, '
-    'validated by the correspondence run, not verified; netlocs with [ ] brackets are outside the model',
+    'validated by the correspondence run, not verified',
 ]
 TECHNIQUE = ('Coq proofs (induction over names / segments, percent-UTF-8 round trip through webob\'s unquote and the WSGI '
              'decoding) on a hand-written Gallina model that reuses the verified traverser of C02 + regenerated facts + '
@@ -76,7 +78,7 @@ facts = c07facts.facts
 
 FINDING_COLON = 'C07-relative-colon-parsed-as-url'
 SAFE = "~!$&'()*+,;=:@"
-EXC = {'URLDecodeError': 1, 'UnicodeDecodeError': 2, 'UnicodeEncodeError': 3, 'TypeError': 4}
+EXC = {'URLDecodeError': 1, 'UnicodeDecodeError': 2, 'UnicodeEncodeError': 3, 'TypeError': 4, 'ValueError': 5}
 
 # ------------------------------------------------------------------ generation
 NAMES = ['a', 'b', 'c', 'one', 'two', 'onetwo', 'on', 'ab', 'A', 'x', 'a b', 'é', 'Québec', '日本', '%41',
@@ -262,7 +264,10 @@ def gen_case(rng):
     elif x < 0.07 and rel_str:
         rel_str += rng.choice(['/', '?x=/a', '#f', '//', '/.', '/..'])
     elif x < 0.09:
-        rel_str = rng.choice(SCHEMEY) + rng.choice(['', '/', '//h/p', '//h:1/' + rel_str, '//[::1]/x', '/' + rel_str, '?q#f'])
+        rel_str = rng.choice(SCHEMEY) + rng.choice(['', '/', '//h/p', '//h:1/' + rel_str, '//[::1]/x', '/' + rel_str, '?q#f',
+                                                    '//[::1]:8/' + rel_str, '//[v1.a]/' + rel_str, '//[x]/y', '//[1.2.3.4]/y',
+                                                    '//[::1/y', '//a]/y', '//[fe80::1%25eth0]/' + rel_str, '//u@[::1]/y',
+                                                    '//[vz.a]/y', '//[]/y', '/[x'])
     els = [rng.choice(NAMES + ['a/b', '', 'x y', '@@v', '..']) for _ in range(rng.choice([0, 0, 0, 1, 1, 2]))]
     vroot, vk = gen_vroot(rng, tree, r)
     x = rng.random()
@@ -445,18 +450,27 @@ def _opt(v):
     return [] if v is None else [v]
 
 
-def app_url_of(script):
-    """request.application_url as webob computes it (oracle input of the model)"""
+def host_url_of():
+    """request.host_url as webob computes it for the blank environ (oracle input of the model; C17's subject)"""
     from webob import Request
+    return Request.blank('/').host_url
+
+
+def urlsplit_ok(path):
+    """oracle for the one opaque step of urllib.parse.urlsplit (the check of a bracketed host)"""
+    from urllib.parse import urlsplit
     try:
-        return Request.blank('/', environ={'SCRIPT_NAME': script}).application_url
+        urlsplit(path)
+        return True
+    except ValueError:
+        return False
     except Exception:
-        return None
+        return True
 
 
 def to_wire(case):
     return [_tree_wire(case['tree']), list(case['r']), list(case['a']), list(case['rel']), case['rel_str'],
-            list(case['els']), _opt(case['vroot']), case['script'], _opt(app_url_of(case['script']))]
+            list(case['els']), _opt(case['vroot']), case['script'], _opt(host_url_of()), urlsplit_ok(case['rel_str'])]
 
 
 NOBS = 13
@@ -527,9 +541,7 @@ def _guard(f):
         return _exc(e)
 
 
-def run_impl(case):
-    if not _impl:
-        setup('quick')
+def _clear_caches():
     T = _impl['T']
     for name in ('split_path_info', 'traversal_path_info', '_join_path_tuple'):
         clear = getattr(getattr(T, name, None), 'cache_clear', None)
@@ -537,6 +549,29 @@ def run_impl(case):
             clear()
     if isinstance(getattr(T, '_segment_cache', None), dict):
         T._segment_cache.clear()
+    from pyramid import url as U
+    for name in ('_join_elements', '_join_quoted_elements'):
+        clear = getattr(getattr(U, name, None), 'cache_clear', None)
+        if clear is not None:
+            clear()
+
+
+def run_impl(case):
+    """The case is run twice: first over whatever the caches hold from the earlier cases of this worker process
+    (a real history), then from cold caches (what a replay reproduces).  The history clause (C07_history_free)
+    says both answers are the same; a difference is reported as such."""
+    if not _impl:
+        setup('quick')
+    warm = _run_once(case)
+    _clear_caches()
+    cold = _run_once(case)
+    if warm != cold:
+        return ['HISTORY-DIFFERS', warm, cold]
+    return cold
+
+
+def _run_once(case):
+    T = _impl['T']
     root = _impl['build_tree'](case['tree'])
     r = _impl['res_at'](root, case['r'])
     a = _impl['res_at'](root, case['a'])
@@ -650,7 +685,13 @@ def classify(case, obs, spec):
     return None
 
 
+def _history_differs(obs):
+    return isinstance(obs, list) and len(obs) == 3 and obs[0] == 'HISTORY-DIFFERS'
+
+
 def nontrivial(case, obs):
+    if _history_differs(obs) or len(obs) != NOBS:
+        return False
     return bool(case['r']) and obs[2] == [4, list(case['r'])] and (case['vroot'] is not None or bool(case['rel']))
 
 
@@ -682,6 +723,8 @@ def _vroot_kind(case):
 
 
 def kinds(case, obs):
+    if _history_differs(obs) or len(obs) != NOBS:
+        return ['history-differs' if _history_differs(obs) else 'harness-problem']
     ks = ['depth:%d' % min(len(case['r']), 4), 'vroot:' + _vroot_kind(case)]
     names = names_at(case['tree'], case['r'])
     if any(quote(n) != n for n in names):
